@@ -8,7 +8,7 @@
    its own default / frozen value). *)
 From PG Require Import Common.Tactics Model.Typing Proofs.TypingBasics Proofs.TypingApply
                        Proofs.TypingCompat Proofs.TypingExtend Proofs.TypingDict Proofs.TypingApplyDict
-                       Proofs.TypingCompatDict Proofs.TypingTheorems.
+                       Proofs.TypingCompatDict Proofs.TypingTheorems Proofs.TypingExtendFrozen.
 Local Open Scope Z_scope.
 
 (* Applying a spec to a value it accepts yields a value it accepts again and maps to itself:
@@ -130,3 +130,14 @@ Print Assumptions C04_schema_extend_shared_fields_partial.
 Theorem C04_wf_decidable : forall s, wfb s = true -> wf s.
 Proof. exact wfb_wf. Qed.
 Print Assumptions C04_wf_decidable.
+
+(* The same with frozen children: the child c, or any part of it, may be frozen (its frozen value
+   is re-validated against the narrowed spec; a frozen child on an Enum base becomes a frozen Enum
+   over the base's candidates); the base is not frozen ([basef]).  Child without Union / Dict
+   schema, base without Union / Dict schema. *)
+Theorem C04_extend_narrows_frozen_partial : forall q c b c',
+  no_quirks q -> goodf c -> basef b -> wf b ->
+  extend q c b = Ok c' ->
+  (forall v, total v = true -> conforms c' v -> accepts b v) /\ compat q b c' = true.
+Proof. exact extend_narrows_frozen. Qed.
+Print Assumptions C04_extend_narrows_frozen_partial.
